@@ -1,4 +1,5 @@
-import A2Verif.Lemmas.C12FsFatRead
+import A2Verif.Lemmas.C12FsFatWalk
+import A2Verif.Gen.C12FsFlags
 /-!
 # C12 — the FAT read paths on arbitrary images (`/repo/src/fs/fat/mod.rs`, `directory.rs`, `bios/{bpb,fat}.rs`)
 
@@ -188,6 +189,29 @@ theorem fat_chain_selfloop_is_error (d : Disk) (c : Nat) (data : Bytes) (hin : c
   simp only [bind_apply, M.get, hin, Bool.not_true, Bool.false_eq_true, ↓reduceIte]
   exact chainDataLoop_selfloop hin hrb hnc _
 
+/-- **C12, FAT `tree` and `glob`** (the recursive walks `tree_node(include_meta = true)` and `glob_node` over the concrete model:
+`build_files` of each directory, `get_directory` of each sub-directory entry, `get_cluster_chain_length` of each entry): for EVERY
+good state — directory cycles, DAGs, sub-directory entries pointing anywhere — no panic, with or without the visit budget; with the
+budget (c9d6197) a walk that returns has entered at most `cluster_count_usable + 1` directories.  Bounded time: the recursion is on
+the nesting cap (65 / 64 levels), each level a structural recursion over the entries `build_files` returned, each chain walk on its
+cap; without the budget the number of directories entered is bounded only by (entries per directory)^depth (defect F1). -/
+theorem fat_tree_glob_no_panic (d : Disk) (g : Good d) (budget : Bool) :
+    (treeV budget d).1 ≠ .error .panic ∧ (globV budget d).1 ≠ .error .panic ∧
+    (∀ v, (treeV true d).1 = .ok v → v ≤ d.bpb.clusterCountUsable + 1) ∧
+    (∀ v, (globV true d).1 = .ok v → v ≤ d.bpb.clusterCountUsable + 1) :=
+  ⟨(treeV_safe g budget).2.1, (globV_safe g budget).2.1,
+   fun v h => (treeV_safe g true).2.2 v h rfl, fun v h => (globV_safe g true).2.2 v h rfl⟩
+
+/-- the same for the source as it is now: the budget is in both walks and both nesting-cap branches return `Err` at depth 64
+(`Gen.C12FsFlags`, regenerated from `fs/fat/mod.rs` on every run; does not check when one of them disappears) -/
+theorem fat_tree_glob_no_panic_now (d : Disk) (g : Good d) :
+    (treeV Gen.C12FsFlags.fatVisitBudget d).1 ≠ .error .panic ∧ (globV Gen.C12FsFlags.fatVisitBudget d).1 ≠ .error .panic ∧
+    (∀ v, (treeV Gen.C12FsFlags.fatVisitBudget d).1 = .ok v → v ≤ d.bpb.clusterCountUsable + 1) := by
+  have hb : Gen.C12FsFlags.fatVisitBudget = true := by decide
+  have hc : Gen.C12FsFlags.fatTreeCapErr = true ∧ Gen.C12FsFlags.fatGlobCapErr = true ∧ Gen.C12FsFlags.fatMaxDirectoryDepth = 64 := by decide
+  rw [hb]
+  exact ⟨(fat_tree_glob_no_panic d g true).1, (fat_tree_glob_no_panic d g true).2.1, (fat_tree_glob_no_panic d g true).2.2.1⟩
+
 /-! ## `build_files` -/
 
 /-- C12, `Directory::build_files` on ANY list of directory entries (any bytes; both variants of the label handling): no panic —
@@ -242,7 +266,8 @@ example : ∃ d, mount false (replFor exRaw) exRaw = .ok d ∧ d.raw = exRaw := 
 /-- defect F2, witness: on a healthy (empty) volume `get("A*")` panics as written (`finfo.cluster1.unwrap()` on the wildcard
 `FileInfo`); repaired: `Syntax`.  `stat` and `catalog("/")` run (the example image ends before the data region). -/
 example : cls (getV false [65, 42] exDisk).1 = .panic ∧ cls (getV true [65, 42] exDisk).1 = .err ∧
-    cls (catalog [47] exDisk).1 = .ok ∧ cls (getV false [65] exDisk).1 = .err := by decide +kernel
+    cls (catalog [47] exDisk).1 = .ok ∧ cls (getV false [65] exDisk).1 = .err ∧
+    cls (treeV true exDisk).1 = .ok ∧ cls (globV false exDisk).1 = .ok := by decide +kernel
 
 /-- defect F3, witness: the same boot sector with `bytes_per_sec = 1024` and 224 root entries on the 512-byte image: accepted by
 `verify` as written, refused by the repaired one -/
